@@ -33,10 +33,10 @@ def main():
             "add_only": True,
         },
         "engines": [
-            {"name": "xstate", "path": "/verif/harness/engine/xstate", "serves_properties": [p for p in sorted(CHECKS) if CHECKS[p]['engine'] == "xstate"], "kind_free_text": "explicit-state BFS: state = history, successor = fresh real object + replay + one op, dedup by canonical private-state dump"},
-            {"name": "sched", "path": "/verif/harness/engine/sched", "serves_properties": [p for p in sorted(CHECKS) if CHECKS[p]['engine'] == "sched"], "kind_free_text": "cooperative scheduler + stateless DFS with iterative preemption bounding over overlay-instrumented sync/chan/atomic operations"},
-            {"name": "crashfs", "path": "/verif/harness/engine/crashfs", "serves_properties": [p for p in sorted(CHECKS) if CHECKS[p]['engine'] == "crashfs"], "kind_free_text": "recorded file-system history; every prefix and torn last write materialised, real recovery run on each"},
-            {"name": "enum", "path": "/verif/harness/engine/enum", "serves_properties": [p for p in sorted(CHECKS) if CHECKS[p]['engine'] == "enum"], "kind_free_text": "bounded-exhaustive input enumeration (grammar product, simplest first) against a reference model or DuckDB"},
+            {"name": "xstate", "path": "/verif/harness/engine/xstate", "serves_properties": [p for p in sorted(CHECKS) if "xstate" in CHECKS[p]['engine']], "kind_free_text": "explicit-state BFS: state = history, successor = fresh real object + replay + one op, dedup by canonical private-state dump"},
+            {"name": "sched", "path": "/verif/harness/engine/sched", "serves_properties": [p for p in sorted(CHECKS) if "sched" in CHECKS[p]['engine']], "kind_free_text": "cooperative scheduler (shim/vsched, vsync, vatomic, vclock, vsql) + stateless DFS with preemption/deviation bounding over overlay-instrumented sync/chan/atomic/go/time operations; violations replayed twice"},
+            {"name": "crashfs", "path": "/verif/harness/shim/vos", "serves_properties": [p for p in sorted(CHECKS) if CHECKS[p]['engine'] == "crashfs" or "vos" in CHECKS[p]['engine']], "kind_free_text": "os-level shim (overlay rewrite of package os): records the mutating file-system calls of the code under test, kills the process at the k-th call, tears the crashing write, injects call errors; real recovery run on each crash state"},
+            {"name": "enum", "path": "/verif/harness/engine/ev", "serves_properties": [p for p in sorted(CHECKS) if CHECKS[p]['engine'] in ("enum", "faultbackend")], "kind_free_text": "bounded-exhaustive enumeration written per check (grammar / layout / fault-set products, simplest first) on top of the shared ev runtime (violation classes, ddmin minimisation, known-findings matching, evidence, process sharding) against a reference model or DuckDB"},
         ],
         "checks": checks,
         "not_applicable": na,
